@@ -87,6 +87,9 @@ TARGETED = [
     # (24 per sp3 carbon), macrocycles
     'C' * 45, 'C' * 60, 'CC(C)' * 12 + 'C', 'C' * 20 + 'O' + 'C' * 25,
     'C1CCCCCCCCC1', 'C1CCCCCCCCCCC1', 'O=C1CCCCCCCCCCC1',
+    # an aromatic ring fused to / bridged with aliphatic rings
+    'c1ccc2CCCc2c1', 'c1ccc2CCCCc2c1', 'C1CC2CCCC2C1', 'C1CCC2CC2C1',
+    'c1ccc2CCc2c1',
     'CC(C)C(C)(C)C', 'CC(C)(C)C(C)(C)C', 'CC(C)C(C)C', 'CCC(C)C(C)(C)CC',
     'CC(C)C(C)=C', 'CC(C)(C)C(C)=C', 'CC(C)(C)C=C', 'CC(C)C=C',
     'CC(C)(C)C(=C)C(C)(C)C', r'C/C(CC)=C(C)/CC', r'C/C(CC)=C(/C)CC',
